@@ -75,6 +75,45 @@ check('C10', level='exploration', steps=[dict(src='drv/c10.c', variant='plain', 
             "non-trivial = multi-label generated domains (counted by the driver, pairwise distinct by construction)"),
       deadline=dict(quick=300, thorough=2400))
 
+def build_shim(bdir, backend):
+    """libhist_<backend>.so = unmodified library sources of that backend + drv/shim.c, malloc/free (and the idn2 conversion) wrapped"""
+    variant = {'idn2': 'plain', 'idn': 'idn', 'idnkit': 'idnkit'}[backend]
+    objs = BL.build_objects(bdir, variant, prefix='hist-' + backend)
+    cc, cflags, be, vdefs = BL.VARIANTS[variant]
+    bdefs, _ = BL.backend_flags(be)
+    R = BL.repo()
+    so = os.path.join(bdir, 'libhist_%s.so' % backend)
+    wrap = '-Wl,--wrap=malloc,--wrap=free' + (',--wrap=idn2_to_ascii_8z' if backend == 'idn2' else '')
+    cmd = [cc] + cflags + ['-std=gnu99', '-fPIC', '-shared', '-Wl,-Bsymbolic', '-Wl,-z,now', wrap, '-I' + os.path.join(R, 'include'), '-I' + R] + BL.BASE_DEFS + bdefs + \
+          ['-o', so, os.path.join(V, 'drv', 'shim.c')] + objs + ['-lidn2']
+    rc, out = BL.sh(cmd)
+    if rc: raise RuntimeError('shim build failed: %s\n%s' % (' '.join(cmd), out))
+    return so
+
+def build_hist(bdir, step):
+    exe = BL.build_driver(bdir, 'drv/hist.c', 'plain', objs=[], libs=(), out=os.path.join(bdir, step['name']))
+    args = []
+    for be in step['backends']:
+        args += ['--lib', build_shim(bdir, be)]
+    step['args'] = ['--prop', step['prop']] + args + step.get('xargs', [])
+    return exe
+
+RULE_HIST = ("explicit-state BFS: a state is the canonical serialisation of the whole eav_t (all fields, result record by value, callbacks by name, allocator/resolver ledgers) "
+             "plus the harness model variables; every state is distinct by construction of the visited set; every transition is one real library call sequence replayed on a fresh poisoned object; "
+             "distinct_nontrivial = number of distinct states reached (plus, for C19, the fault runs)")
+check('C13', level='model_checking', steps=[dict(builder=build_hist, name='hist-c13', prop='C13', backends=['idn2'])],
+      rule=RULE_HIST, deadline=dict(quick=240, thorough=2400),
+      mc_keys=dict(states='states', transitions='transitions'), traces_key='histories_replayed')
+
+check('C19', level='fault_enumeration', steps=[dict(builder=build_hist, name='hist-c19', prop='C19', backends=['idn2'])],
+      rule=RULE_HIST + "; fault alphabet = 31 libidn2 return codes x {no output buffer, buffer allocated}, injected at the conversion call through -Wl,--wrap=idn2_to_ascii_8z",
+      deadline=dict(quick=240, thorough=2400))
+check('C18', level='model_checking', steps=[dict(builder=build_hist, name='hist-c18-lockstep', prop='C18', backends=['idn2', 'idn', 'idnkit']),
+                                             dict(builder=build_hist, name='hist-c18-ctxfail', prop='C18', backends=['idnkit'], xargs=['--ctxfail'])],
+      rule=RULE_HIST + "; lock-step: the state is the triple of the three backends' objects",
+      deadline=dict(quick=240, thorough=2400),
+      mc_keys=dict(states='states', transitions='transitions'), traces_key='histories_replayed')
+
 # ---------------------------------------------------------------------------
 def load_findings():
     p = os.path.join(V, 'known_findings.json')
